@@ -273,6 +273,20 @@ Proof.
   exact (add_collider_raises_only R _ _ 0%R _ _ frame feqb coll pose aabb_of okboxR cost_total_R H).
 Qed.
 
+(** Where the hypothesis [narrow_implies_aabb_overlap] comes from (reals): if every collider's
+    box encloses its shape (C04's enclosure) and the narrow phase answers "collision" only when
+    the two shapes share a point, colliding colliders have overlapping boxes. *)
+Theorem narrow_hypothesis_from_enclosure :
+  forall coll (shape : coll -> R -> R -> R -> Prop) (aabb_of : coll -> box R) (narrow : coll -> coll -> bool),
+    (forall c x y z, shape c x y z -> inbox (aabb_of c) x y z) ->
+    (forall c c', narrow c c' = true -> exists x y z, shape c x y z /\ shape c' x y z) ->
+    narrow_implies_aabb_overlap R Rleb coll aabb_of narrow.
+Proof.
+  intros coll shape aabb_of narrow Henc Hnar c c' H.
+  destruct (Hnar c c' H) as (x & y & z & Hc & Hc').
+  exact (enclosing_boxes_overlap _ _ x y z (Henc _ _ _ _ Hc) (Henc _ _ _ _ Hc')).
+Qed.
+
 (** the hypotheses on the coordinate order hold for the reals.  (That the heuristics run by the
     correspondence check are the binary64 instance of [o_go_left] / [o_cost_ok] is the lemma
     [heuristics_at_binary64] of Proofs/BvhReal.v, proved by reflexivity; it is not restated here
@@ -389,6 +403,7 @@ Print Assumptions fill_tree_is_a_history.
 Print Assumptions update_poses_never_asserts_R.
 Print Assumptions update_poses_succeeds_R.
 Print Assumptions add_collider_never_asserts_R.
+Print Assumptions narrow_hypothesis_from_enclosure.
 Print Assumptions real_order_ok.
 Print Assumptions generated_whitelist_spec.
 Print Assumptions generated_whitelists_lookup.
